@@ -14,7 +14,7 @@ SCENARIO_PROPS = {"C01", "C02", "C03", "C04", "C05", "C06", "C07", "C08", "C09",
 _cache = {}
 
 
-def run_scenarios(pid, seed, budget=25.0):
+def run_scenarios(pid, seed, budget=45.0):
     """returns (list of hit dicts, note)"""
     key = (pid, seed)
     if key in _cache:
